@@ -350,6 +350,58 @@ func reloadZeroOnly(r *Rng, cur *reloadQ, ntypes int) (*reloadQ, string, string)
 	return cp, c.path, c.typ
 }
 
+// scenario configurations: a twin of an existing configuration that differs in one respect, played right after it
+type reloadScenario struct {
+	kind       string // "maxapps": max-applications of one queue (and what validation forces below it) lowered to 1; "drop": a three-level subtree removed
+	base, twin int    // configuration indices
+	queue      string
+	leaves     []string
+}
+
+// reloadMaxAppsTwin lowers max-applications of one top-level queue that currently allows at least two running applications.
+func reloadMaxAppsTwin(r *Rng, cur *reloadQ) (*reloadQ, string, []string) {
+	cp := cur.clone()
+	var cands []*reloadQ
+	for _, q := range cp.children {
+		if q.maxApps == 0 || q.maxApps >= 2 {
+			cands = append(cands, q)
+		}
+	}
+	if len(cands) == 0 {
+		return nil, "", nil
+	}
+	q := cands[r.Intn(len(cands))]
+	q.maxApps = 1
+	q.limits = ""
+	cp.fixup(nil, 0)
+	path := "root." + q.name
+	lv, dy := map[string]bool{}, map[string]bool{}
+	q.collect("root", lv, dy)
+	leaves := sortedKeys(lv)
+	for _, d := range sortedKeys(dy) {
+		leaves = append(leaves, d+".d0")
+	}
+	return cp, path, leaves
+}
+
+// the deep subtree root.org -> team -> dev, test (configured queues three levels below root)
+func reloadDeepSubtree(r *Rng, ntypes int) *reloadQ {
+	dev := &reloadQ{name: "dev"}
+	test := &reloadQ{name: "test"}
+	if r.Chance(40) {
+		dev.max = r.res(ntypes, 4, 20, true)
+	}
+	team := &reloadQ{name: "team", parent: true, children: []*reloadQ{dev, test}}
+	if r.Chance(30) {
+		team.props = reloadRollProps(r)
+	}
+	org := &reloadQ{name: "org", parent: true, children: []*reloadQ{team}}
+	if r.Chance(30) {
+		org.children = append(org.children, &reloadQ{name: "ops"})
+	}
+	return org
+}
+
 func (q *reloadQ) collect(prefix string, leaves, dyn map[string]bool) {
 	path := q.name
 	if prefix != "" {
@@ -467,6 +519,9 @@ func reloadGenCase(rng *Rng, maxOps int) (*reloadCase, error) {
 	ntypes := 1 + rng.Intn(3)
 	tree := reloadFromGen(genTree(rng, ntypes))
 	reloadDecorate(rng, tree, 30)
+	if rng.Chance(55) {
+		tree.children = append(tree.children, reloadDeepSubtree(rng, ntypes))
+	}
 	tree.fixup(nil, 0)
 	preempt := rng.Chance(35)
 	policy := []string{"fair", "binpacking"}[rng.Intn(2)]
@@ -495,6 +550,38 @@ func reloadGenCase(rng *Rng, maxOps int) (*reloadCase, error) {
 		}
 		if rng.Chance(25) {
 			w.Configs = append(w.Configs, reloadInvalidConfig(rng, cur, preempt, policy))
+		}
+	}
+	// scenario twins of the last configuration (or of the initial one)
+	var scen []reloadScenario
+	baseIdx, baseTree := len(w.Configs)-1, cur
+	if strings.Contains(w.Configs[baseIdx], "this is not") || w.Configs[baseIdx] != reloadConfigYAML(cur, preempt, policy, "provided") {
+		w.Configs = append(w.Configs, reloadConfigYAML(cur, preempt, policy, "provided"))
+		baseIdx = len(w.Configs) - 1
+	}
+	if rng.Chance(60) {
+		if tw, path, lv := reloadMaxAppsTwin(rng, baseTree); tw != nil && len(lv) > 0 {
+			scen = append(scen, reloadScenario{kind: "maxapps", base: baseIdx, twin: len(w.Configs), queue: path, leaves: lv})
+			w.Configs = append(w.Configs, reloadConfigYAML(tw, preempt, policy, "provided"))
+		}
+	}
+	for _, bt := range []struct {
+		idx int
+		t   *reloadQ
+	}{{baseIdx, baseTree}, {0, tree}} {
+		if bt.t.child("org") != nil && len(bt.t.children) > 1 {
+			tw := bt.t.clone()
+			kept := []*reloadQ{}
+			for _, q := range tw.children {
+				if q.name != "org" {
+					kept = append(kept, q)
+				}
+			}
+			tw.children = kept
+			scen = append(scen, reloadScenario{kind: "drop", base: bt.idx, twin: len(w.Configs), queue: "root.org",
+				leaves: []string{"root.org.team.dev", "root.org.team.test"}})
+			w.Configs = append(w.Configs, reloadConfigYAML(tw, preempt, policy, "provided"))
+			break
 		}
 	}
 	c := &reloadCase{CoreCase: CoreCase{World: w}}
@@ -569,6 +656,60 @@ func reloadGenCase(rng *Rng, maxOps int) (*reloadCase, error) {
 			}
 		case x < th[13]:
 			ci := rng.Intn(len(w.Configs))
+			if len(scen) > 0 && rng.Chance(30) {
+				sc := scen[rng.Intn(len(scen))]
+				plain := func(queue string) CoreOp {
+					op := g.opAppAdd()
+					op.Queue, op.PhAsk, op.Hard, op.Forced, op.MaxApps, op.TagMax = queue, nil, false, false, 0, nil
+					delete(g.gangApps, op.App)
+					return op
+				}
+				if st := emit(CoreOp{Kind: "reload", Conf: sc.base}); st.Err {
+					continue
+				}
+				g.nextNode++
+				big := fmt.Sprintf("node-%d", g.nextNode)
+				g.nodes = append(g.nodes, big)
+				emit(CoreOp{Kind: "node_add", Node: big, Cap: CoreRes{"memory": 60, "vcore": 60, "gpu": 60}})
+				switch sc.kind {
+				case "maxapps":
+					// at least two applications Running below the queue, then max-applications drops to 1
+					var started []string
+					for k := 0; k < 3; k++ {
+						op := plain(sc.leaves[rng.Intn(len(sc.leaves))])
+						emit(op)
+						started = append(started, op.App)
+						emit(CoreOp{Kind: "alloc", App: op.App, Key: g.newKey(op.App), Res: CoreRes{"memory": 1}, AgeSec: 3600})
+					}
+					for k := 0; k < 6; k++ {
+						emit(CoreOp{Kind: "sched"})
+					}
+					emit(CoreOp{Kind: "reload", Conf: sc.twin})
+					emit(CoreOp{Kind: "sched"})
+					// one application finishes, a fourth one arrives
+					emit(CoreOp{Kind: "release", App: started[0], TType: 1})
+					op := plain(sc.leaves[rng.Intn(len(sc.leaves))])
+					emit(op)
+					emit(CoreOp{Kind: "alloc", App: op.App, Key: g.newKey(op.App), Res: CoreRes{"memory": 1}, AgeSec: 3600})
+					emit(CoreOp{Kind: "sched"})
+					emit(CoreOp{Kind: "sched"})
+				case "drop":
+					// an application running three levels down, then the whole subtree leaves the configuration
+					op := plain(sc.leaves[0])
+					emit(op)
+					emit(CoreOp{Kind: "alloc", App: op.App, Key: g.newKey(op.App), Res: CoreRes{"memory": 1}, AgeSec: 3600})
+					emit(CoreOp{Kind: "sched"})
+					emit(CoreOp{Kind: "sched"})
+					emit(CoreOp{Kind: "reload", Conf: sc.twin})
+					emit(plain(sc.leaves[0]))
+					emit(plain(sc.leaves[1]))
+					emit(CoreOp{Kind: "clean"})
+					emit(CoreOp{Kind: "app_remove", App: op.App})
+					emit(CoreOp{Kind: "clean"})
+					emit(CoreOp{Kind: "clean"})
+				}
+				continue
+			}
 			if len(zeroAt) > 0 && rng.Chance(35) {
 				// the zero-only pair: first the configuration without the zero-valued type, then the one with it
 				// (or the other way round), so that the reload changes nothing but the key set of one limit
